@@ -2,7 +2,7 @@
 import os, json, re
 ROOT = os.path.dirname(os.path.dirname(os.path.abspath(__file__)))
 rows = []
-for d in sorted(os.listdir(os.path.join(ROOT, "seeded"))):
+for d in sorted(os.listdir(os.path.join(ROOT, "seeded")), key=lambda x: (int(re.sub(r"\D", "", x.split("-")[0]) or 0), x)):
     sd = os.path.join(ROOT, "seeded", d)
     mp = os.path.join(sd, "meta.json")
     if not os.path.exists(mp):
